@@ -8,6 +8,7 @@ import (
 	"flag"
 	"fmt"
 	"math/rand"
+	"net"
 	"os"
 	"runtime"
 	"sync"
@@ -16,6 +17,8 @@ import (
 	. "verifharness/hlib"
 
 	erpc "github.com/henrylee2cn/erpc/v6"
+	wsmixer "github.com/henrylee2cn/erpc/v6/mixer/websocket"
+	"github.com/henrylee2cn/erpc/v6/mixer/websocket/jsonSubProto"
 	"github.com/henrylee2cn/erpc/v6/proto/httproto"
 	"github.com/henrylee2cn/erpc/v6/proto/jsonproto"
 	"github.com/henrylee2cn/erpc/v6/proto/pbproto"
@@ -25,7 +28,7 @@ import (
 )
 
 var noStop = flag.Bool("nostop", false, "do not stop after six oracle failures")
-var mode = flag.String("mode", "raw", "raw|json|pb|http|thriftbin|thriftstruct|replies|nopool")
+var mode = flag.String("mode", "raw", "raw|json|pb|http|ws|thriftbin|thriftstruct|replies|nopool")
 
 type bufRW struct{ bytes.Buffer }
 
@@ -238,6 +241,11 @@ func genStream(r *rand.Rand, pf erpc.ProtoFunc, callName, pushName string, lim u
 			frames = append(frames, f)
 		}
 	}
+	if *mode == "ws" {
+		for i := range frames {
+			frames[i] = wsFrame(r, frames[i])
+		}
+	}
 	all := bytes.Join(frames, nil)
 	k := r.Intn(10)
 	if *mode == "raw" && r.Intn(12) == 0 {
@@ -291,6 +299,14 @@ func genStream(r *rand.Rand, pf erpc.ProtoFunc, callName, pushName string, lim u
 				big = "POST /x HTTP/1.1\r\nX-Long: " + string(bytes.Repeat([]byte{'a'}, int(lim)+100))
 			}
 			return append(b, big...), "oversize-announced"
+		case "ws":
+			// a masked binary frame announcing more than the read limit (below and above the
+			// websocket library's own 32 MiB default), no payload
+			v := uint64(lim) + 1 + uint64(r.Intn(1<<20))
+			if r.Intn(2) == 0 {
+				v = uint64(lim) + 1 + uint64(r.Intn(1<<30))
+			}
+			return append(b, 0x82, 0xff, byte(v>>56), byte(v>>48), byte(v>>40), byte(v>>32), byte(v>>24), byte(v>>16), byte(v>>8), byte(v), 1, 2, 3, 4), "oversize-announced"
 		default:
 			v := lim + 1 + uint32(r.Intn(1<<30))
 			return append(b, byte(v>>24), byte(v>>16), byte(v>>8), byte(v)), "oversize-announced"
@@ -344,6 +360,8 @@ func main() {
 		pf = pbproto.NewPbProtoFunc()
 	case "http":
 		pf = httproto.NewHTTProtoFunc()
+	case "ws":
+		pf = jsonSubProto.NewJSONSubProtoFunc() // builds the payloads; the session is served with wsPF
 	case "thriftbin":
 		pf = thriftproto.NewBinaryProtoFunc()
 	case "thriftstruct":
@@ -376,6 +394,9 @@ func main() {
 		s, class := genStream(r, pf, callName, pushName, lim, st)
 		st.Count("class:" + class)
 		nfr, unsupported := clientDecode(pf, s)
+		if *mode == "ws" || *mode == "thriftstruct" || *mode == "thriftbin" || *mode == "http" {
+			unsupported = false // the classification by the bare decoder means nothing under another framing / is not compared
+		}
 		erpc.SetReadLimit(lim)
 		var tab, classes []string
 		if sized {
@@ -387,12 +408,18 @@ func main() {
 		}
 		cc, sc := MemPair()
 		raddr := cc.LocalAddr().String()
+		var serveConn net.Conn = sc
+		servePF := pf
+		if *mode == "ws" {
+			// a real websocket handshake, then the server side's transport is the in-memory conn
+			serveConn, servePF = wsServerConn(sc), wsmixer.NewWsProtoFunc(pf)
+		}
 		runtime.ReadMemStats(&ms)
 		alloc0 := ms.TotalAlloc
 		utils.VerifResetMaxAlloc()
 		var sess erpc.Session
 		done := make(chan struct{})
-		go func() { sess, _ = srv.ServeConn(sc, pf); close(done) }()
+		go func() { sess, _ = srv.ServeConn(serveConn, servePF); close(done) }()
 		select {
 		case <-done:
 		case <-time.After(15 * time.Second):
